@@ -7,7 +7,7 @@ import subprocess
 from .. import core
 from ..core import hexb
 
-MODULES = ["Robsd.Props.C08", "Robsd.Props.C08Complete", "Robsd.Props.C08Lex", "Robsd.Props.C08Steps"]
+MODULES = ["Robsd.Props.C08", "Robsd.Props.C08Complete", "Robsd.Props.C08Lex", "Robsd.Props.C08Steps", "Robsd.Props.C08Regress"]
 GENS = ["Consts", "Grammar"]
 MODES = ["robsd", "robsd-cross", "robsd-ports", "robsd-regress", "canvas"]
 
